@@ -98,6 +98,9 @@ func Harness_C02_single() { verifC02(1) }
 // Harness_C02_batch: arrays of one or two members.
 func Harness_C02_batch() { verifC02(2) }
 
+// Harness_C02_pairs: arrays of exactly two members, nine classes each.
+func Harness_C02_pairs() { verifC02(3) }
+
 func verifC02(mode int) {
 	push := nondetBool("allowpush")
 	nobuiltin := nondetBool("nobuiltin")
@@ -110,12 +113,15 @@ func verifC02(mode int) {
 	switch mode {
 	case 0:
 		batch = nondetBool("batch")
-	case 2:
+	case 2, 3:
 		batch = true
 	}
 	n := 1
 	if batch {
 		n = 1 + nondetChoice("n", 2)
+	}
+	if mode == 3 {
+		n = 2
 	}
 	var ms []*verifMember
 	var raws []json.RawMessage
@@ -129,7 +135,14 @@ func verifC02(mode int) {
 		if thorough() {
 			names = verifMethods
 		}
-		m := verifGenMember("m"+verifItoa(i), names)
+		var m *verifMember
+		if n > 1 {
+			// pairs: nine representative member classes each (the full
+			// generator squared did not finish in 25 minutes)
+			m = verifGenMemberSmall("m" + verifItoa(i))
+		} else {
+			m = verifGenMember("m"+verifItoa(i), names)
+		}
 		for _, o := range ms {
 			if o.hasID && m.hasID {
 				assume(!tokSame(o.id, m.id))
